@@ -95,7 +95,7 @@ func runCRace(r *verifsim.Run) {
 				panic(err)
 			}
 			if ci == 0 {
-				deleteTempFiles(conf.OutputDir)
+				startupCleanup(conf.OutputDir)
 			}
 			a, b := net.Pipe()
 			done := make(chan struct{})
